@@ -17,6 +17,7 @@ pub mod lifespan;
 pub mod deadline;
 pub mod discovery;
 pub mod worker;
+pub mod rxo;
 
 #[derive(Clone, Debug, Serialize, Deserialize, PartialEq)]
 pub struct Violation {
@@ -69,6 +70,7 @@ pub fn all() -> Vec<ScenarioDef> {
     v.extend(deadline::defs());
     v.extend(discovery::defs());
     v.extend(worker::defs());
+    v.extend(rxo::defs());
     v
 }
 
